@@ -103,7 +103,8 @@ RULE = ("exhaustive: every text over {a, newline} (plus tab when a TabsProcessor
         "one after the other through ONE window (scroll state carries over); a mouse family (4 configurations, every "
         "cell of the window rectangle and one cell around it clicked in the last three states); an any-width family "
         "over {a, double-width, combining accent, raw control character, newline} x widths x heights x wrap x 3 "
-        "configurations; then seeded random histories (1-8 states, lines of length k*w-1, k*w, k*w+1, up to 12 lines, "
+        "configurations; a no-wrap family over {a, U+3105, U+AC00, U+1F600, U+0300, U+200B, U+E0100} (code points of "
+        "all planes: the generated get_cwidth table covers 0..0x10FFFF); then seeded random histories (1-8 states, lines of length k*w-1, k*w, k*w+1, up to 12 lines, "
         "widths 1..9, heights 1..5, window size and wrap mode changing between states, random clicks and callback "
         "values), a wide / zero-width sub-domain (also wide prompts and processor texts) and a raw control character "
         "sub-domain; a case is non-trivial when some state has to scroll (text longer than one window row or more "
@@ -113,10 +114,11 @@ EXHAUSTIVE_SCOPE = {
     "quick": "texts over {a,\\n} len<=4 (len<=5 plain configuration; {a,\\n,\\t} or {a,\\n,blank} len<=3 with Tabs / "
              "white-space processors) x w 1..4 x h 1..3 x wrap x 14 configurations, all cursors; mouse: len<=3 x w 1..4 "
              "x h 1..2 x wrap x 4 configurations, all cells clicked; any widths: texts over {a,wide,combining,^A,\\n} "
-             "len<=3 x w 1..3 x h 1..2 x wrap x 3 configurations, all cursors",
+             "len<=3 x w 1..3 x h 1..2 x wrap x 3 configurations, all cursors; all planes, no wrap: texts over "
+             "{a,U+3105,U+AC00,U+1F600,U+0300,U+200B,U+E0100} len<=2 x w 1..3 x h 1..2 x 3 configurations",
     "thorough": "texts over {a,\\n} len<=6 (len<=7 for 3 configurations; len<=4 with TabsProcessor, len<=5 with "
                 "white-space processors) x w 1..4 x h 1..3 x wrap x 14 configurations, all cursors; mouse: len<=4; any "
-                "widths: len<=4 x w 1..4"}
+                "widths: len<=4 x w 1..4; all planes, no wrap: len<=3"}
 TRUSTED = ["harness/c11.py compares, after every Window.write_to_screen: vertical/horizontal/intra-line scroll, the "
            "content cursor, Screen.cursor_positions[window], render_info.visible_line_to_row_col and _rowcol_to_yx "
            "(in insertion order), the position maps of the cursor line, the columns that got the window's mouse "
@@ -124,7 +126,9 @@ TRUSTED = ["harness/c11.py compares, after every Window.write_to_screen: vertica
            "window passes to the control and the resulting Buffer.cursor_position",
            "Ptk/Model/C11.lean is a hand translation of the anchored layout code (correspondence-checked); the "
            "functions it follows are listed in MODELLED and hash-pinned",
-           "harness/gen_c11.py: get_cwidth / Char.display_mappings tables regenerated from the current tree, and "
+           "harness/gen_c11.py: get_cwidth for ALL code points 0..0x10FFFF (range-compressed, shape re-decided by "
+           "gen_width_tables_wf, bridged to every character by genW_rw_spec) / Char.display_mappings tables "
+           "regenerated from the current tree, and "
            "three behavioural probes (does the scroll code measure characters as drawn? does get_height_for_line wrap "
            "non-1-column lines character by character? is the mouse handler installed for the whole body next to a "
            "left margin?) that select the matching model variant; the first is pinned by theorem "
@@ -708,6 +712,7 @@ RAND_CFG_PROCS = [[["R", "~"], ["L", "_"], ["B", "> "]], [["L", "."], ["C", "con
 WIDE_PREFIX = [["世", "> ", "."], ["丁 ", "丁 ", "丁 "]]
 WIDE_PROCS = [[["B", "世"]], [["A", "丁́"]], [["B", "é"], ["T", 4, "世", "."]]]
 WIDE_ALPHA = ["a", "世", "́", "\x01", "\n"]
+UNSCANNED_ALPHA = ["a", "\u3105", "\uac00", "\U0001f600", "\u0300", "\u200b", "\U000e0100"]
 WIDE_CFGS = [{}, {"so": [1, 1, 1, 1], "init": [2, 3, 1]}, {"prefix": ["世", ">", "."], "so": [0, 0, 1, 0]}]
 RAND_PREFIX = [None, None, None, ["> ", ". ", ". "], ["", "", "-"], [">>", "", ""], [">", "..", "+"], ["abc", "abc", "abc"]]
 
@@ -799,12 +804,25 @@ def cases(tier, rng):
                             c = sweep_case(cfg, text, w, h, wrap)
                             c["sub"] = "wide-exhaustive"
                             yield c
+    # exhaustive, NO wrapping, characters OUTSIDE the round-1 scan ranges of the width table (the table now
+    # covers all code points): Bopomofo / Hangul / emoji (2 columns), combining grave, zero width space,
+    # plane-14 variation selector (0 columns)
+    for cfg in WIDE_CFGS:
+        for n in range((2 if quick else 3) + 1):
+            for tup in itertools.product(UNSCANNED_ALPHA, repeat=n):
+                text = "".join(tup)
+                for w in range(1, 4):
+                    for h in (1, 2):
+                        c = sweep_case(cfg, text, w, h, False)
+                        c["sub"] = "wide-exhaustive-nowrap-all-planes"
+                        yield c
     # random histories: width-1 characters (tabs always through a TabsProcessor)
     for _ in range(1200 if quick else 9000):
         yield random_case(rng, ["a", "b", "c", " ", "\t"], tab_always=True)
     # wide / zero-width sub-domain
     for _ in range(300 if quick else 2500):
-        c = random_case(rng, ["a", "b", " ", "世", "丁", "ｗ", "́", "é", "\t"], tab_always=True, wide_cfg=True)
+        c = random_case(rng, ["a", "b", " ", "世", "丁", "ｗ", "́", "é", "\t", "\u3105", "\uac00", "\U0001f600",
+                              "\u200b", "\U000e0100"], tab_always=True, wide_cfg=True)
         c["sub"] = "wide"
         yield c
     # raw control characters (no TabsProcessor guaranteed)
